@@ -539,6 +539,13 @@ pub fn consistency(store: &AnnotationStore) -> Vec<(String, String)> {
                 expect.entry(k).or_default().push(h);
             }
         }
+        // the public forward navigation: what the annotation references as metadata, each item once, in handle order
+        if let Some(item) = store.annotation(AnnotationHandle::new(h)) {
+            let want_sets: Vec<usize> = seen.iter().filter_map(|k| if let FKey::SetMeta(s) = k { Some(*s) } else { None }).collect::<BTreeSet<_>>().into_iter().collect();
+            let got_sets: Vec<usize> = item.datasets().map(|d| d.handle().as_usize()).collect();
+            if got_sets != want_sets { bad.push(("forward/datasets".into(), format!("annotation {} references datasets {:?} through DataSetSelectors, annotation.datasets() gives {:?}", h, want_sets, got_sets))); }
+            // (resources_as_metadata() follows annotation selectors to the annotations targeted, by design: not compared here)
+        }
     }
     // actual reverse index
     let mut actual: BTreeMap<FKey, Vec<usize>> = BTreeMap::new();
